@@ -203,6 +203,52 @@ func init() {
 		}
 		l.def("c14HandleEventCtxExprs", "List String", leanStrList(ctxExprs), "pkg/hook/controller/admission_bindings_controller.go HandleEvent: BindingContext of every returned BindingExecutionInfo")
 		l.def("c14HandleEventBcType", "String", strconv.Quote(bcType), "pkg/hook/controller/admission_bindings_controller.go HandleEvent: bc := <type>{…}")
+		// how a failed run of the hook process is recognised: the condition of the `if` that directly follows
+		// `err := e.cmd.Run()` in Executor.RunAndLogLines and the one that follows
+		// `result.Usage, err = hookCmd.RunAndLogLines(…)` in Hook.Run (both must return inside)
+		execCond := c14CondAfterCall("pkg/executor/executor.go", "Executor", "RunAndLogLines", "Run")
+		hookCond := c14CondAfterCall("pkg/hook/hook.go", "Hook", "Run", "RunAndLogLines")
+		if execCond == "" || hookCond == "" {
+			stale = true
+		}
+		l.def("c14ExecRunFailCond", "String", strconv.Quote(execCond), "pkg/executor/executor.go RunAndLogLines: condition of the if after err := e.cmd.Run()")
+		l.def("c14HookRunFailCond", "String", strconv.Quote(hookCond), "pkg/hook/hook.go Run: condition of the if after hookCmd.RunAndLogLines(…)")
 		l.def("c14FactsStale", "Bool", map[bool]string{true: "true", false: "false"}[stale], "extractor: a syntactic shape it expects was not found")
 	})
+}
+
+// c14CondAfterCall: in the top-level statements of recv.fn, the assignment whose right-hand side is a call
+// of a method named callee, directly followed by an `if` without init whose body ends in a return: the
+// source of its condition ("" = that shape is not there; "<…>" = the shape differs)
+func c14CondAfterCall(file, recv, fn, callee string) string {
+	fd := findFunc(file, recv, fn)
+	if fd == nil || fd.Body == nil {
+		return ""
+	}
+	for i, st := range fd.Body.List {
+		as, ok := st.(*ast.AssignStmt)
+		if !ok || len(as.Rhs) != 1 {
+			continue
+		}
+		call, ok := as.Rhs[0].(*ast.CallExpr)
+		if !ok {
+			continue
+		}
+		sel, ok := call.Fun.(*ast.SelectorExpr)
+		if !ok || sel.Sel.Name != callee {
+			continue
+		}
+		if i+1 >= len(fd.Body.List) {
+			return "<no statement follows the call>"
+		}
+		is, ok := fd.Body.List[i+1].(*ast.IfStmt)
+		if !ok || is.Init != nil || len(is.Body.List) == 0 {
+			return "<the call is not followed by a plain if>"
+		}
+		if _, ok := is.Body.List[len(is.Body.List)-1].(*ast.ReturnStmt); !ok {
+			return "<the if does not end in a return>"
+		}
+		return srcOf(is.Cond)
+	}
+	return ""
 }
